@@ -147,6 +147,10 @@ func judgeC13(c *Ctx, sc *Scenario) *Violation {
 				ls := *lsite
 				ls.WorkDir = wt
 				modes = append(modes, mode{name: "linked worktree", sc: ml, site: &ls})
+				mw := ml
+				mw.Inv.Cwd = "elsewhere"
+				mw.Inv.Env = map[string]string{"GIT_DIR": filepath.Join(lsite.GitDir, "worktrees", "linked")}
+				modes = append(modes, mode{name: "GIT_DIR = git dir of the linked worktree", sc: mw, site: &ls})
 				c.Stats.Probe("mode-linked-worktree")
 			} else {
 				c.Stats.Probe("git-worktree-add-failed")
@@ -214,6 +218,28 @@ func judgeC13(c *Ctx, sc *Scenario) *Violation {
 					c.Stats.Probe("shallow-clone-runs")
 					if !res.Failed || len(res.Stdout) > 0 || !res.BStderrOK() {
 						return &Violation{"C13/shallow-clone-measured", fmt.Sprintf("failed=%v stdout %d bytes stderr %q", res.Failed, len(res.Stdout), firstBytes(res.Stderr, 200))}
+					}
+					// the same shallow clone addressed through a linked worktree
+					// (its own git dir is <main>/.git/worktrees/<name>; the
+					// shallow marker lives in the common git dir)
+					lwt := filepath.Join(site.Root, "shallow-linked")
+					if _, err := ssite.Git(nil, "worktree", "add", "--detach", "--no-checkout", lwt, "HEAD"); err == nil {
+						ls := &Site{Root: site.Root, WorkDir: lwt, GitDir: filepath.Join(dst, ".git"), Env: site.Env}
+						lsc := base
+						for _, how := range []string{"cwd", "GIT_DIR"} {
+							lsc.Inv.Env = nil
+							lsc.Inv.Cwd = "top"
+							if how == "GIT_DIR" {
+								lsc.Inv.Cwd = "elsewhere"
+								lsc.Inv.Env = map[string]string{"GIT_DIR": filepath.Join(dst, ".git", "worktrees", "shallow-linked")}
+							}
+							res := RunB(&lsc, ls, BOpts{})
+							c.Stats.CLIRuns++
+							c.Stats.Probe("shallow-clone-via-linked-worktree-runs")
+							if res.Panic != "" || !res.Failed || len(res.Stdout) > 0 || !res.BStderrOK() {
+								return &Violation{"C13/shallow-clone-measured", fmt.Sprintf("linked worktree of a shallow clone (%s): failed=%v stdout %d bytes stderr %q", how, res.Failed, len(res.Stdout), firstBytes(res.Stderr, 300))}
+							}
+						}
 					}
 				} else {
 					c.Stats.Probe("clone-depth-1-not-shallow")
